@@ -118,9 +118,45 @@ func eq(a, b reflect.Value, path string, depth int) (bool, string) {
 			return false, fmt.Sprintf("%s: maplen %d vs %d", path, a.Len(), b.Len())
 		}
 		it := a.MapRange()
+		used := map[int]bool{}
+		var bkeys []reflect.Value
 		for it.Next() {
 			bv := b.MapIndex(it.Key())
 			if !bv.IsValid() {
+				// a key that is not equal to itself (NaN inside it): match it bit
+				// for bit against the other map's keys, each used once
+				if bkeys == nil {
+					bkeys = b.MapKeys()
+				}
+				found := false
+				for i, bk := range bkeys {
+					if used[i] {
+						continue
+					}
+					if ok, _ := eq(it.Key(), bk, path, depth+1); !ok {
+						continue
+					}
+					if bk.Interface() == bk.Interface() {
+						continue // an ordinary key: MapIndex would have found it
+					}
+					// values of NaN-keyed entries cannot be looked up; compare via iteration
+					bit := b.MapRange()
+					for bit.Next() {
+						if okk, _ := eq(bit.Key(), bk, path, depth+1); okk && bit.Key().Interface() != bit.Key().Interface() {
+							if okv, _ := eq(it.Value(), bit.Value(), path, depth+1); okv {
+								found = true
+								break
+							}
+						}
+					}
+					if found {
+						used[i] = true
+						break
+					}
+				}
+				if found {
+					continue
+				}
 				return false, fmt.Sprintf("%s: key %v missing", path, trunc(fmt.Sprint(it.Key())))
 			}
 			if ok, p := eq(it.Value(), bv, fmt.Sprintf("%s[%v]", path, trunc(fmt.Sprint(it.Key()))), depth+1); !ok {
